@@ -67,6 +67,7 @@ class SessionModel:
         self.phase = HANDSHAKE
         self.lost = False
         self.rx = 0                 # client events consumed by receive operations
+        self.timeouts = 0           # receive operations that were cancelled by their deadline
         self.diverged = False       # a disagreement was recorded: later operations are not judged
         self.handshake_rejected = False   # the server refused the accept event (subprotocol): state undefined
         self.problems = []          # (kind, detail)
@@ -346,12 +347,27 @@ class SessionModel:
             if not self._is(res, 'WebSocketDisconnected'):
                 self.bad('wrong-error', op=name, why='closed', want=['WebSocketDisconnected'], got=_show(res))
             return
+        timed = op.get('timeout') is not None
+        if timed and (self.rx >= len(self.client) or self.client[self.rx]['type'] == 'pause'):
+            # the client says nothing before the deadline: asyncio.wait_for cancels the parked receive.
+            # Nothing was consumed, nothing changes, the socket stays usable.
+            self.hit(name + '.timed-out')
+            if not _isexc(res, TimeoutError):
+                self.bad('wrong-error', op=name, why='no client message before the deadline', want=['TimeoutError'],
+                         got=_show(res))
+            self.timeouts += 1
+            return
+        while self.rx < len(self.client) and self.client[self.rx]['type'] == 'pause':
+            self.rx += 1              # an untimed receive simply waits until the client speaks again
+            self.hit(name + '.waited-through-pause')
         if self.rx >= len(self.client):
             # silent client: the operation can only wait
             self.hit(name + '.would-block')
             return self.bad('receive-returned-without-input', op=name, got=_show(res))
         ev = self.client[self.rx]
         self.rx += 1
+        if self.timeouts:
+            self.hit(name + '.after-cancelled-receive')
         if ev['type'] == 'websocket.disconnect':
             self.hit(name + '.disconnect')
             self.phase = CLOSED
@@ -385,7 +401,8 @@ class SessionModel:
         client has nothing more to say."""
         if self.phase == UNKNOWN:
             return
-        if op['op'].startswith('receive_') and self.phase == ACCEPTED and self.rx >= len(self.client):
+        rest = [e for e in self.client[self.rx:] if e['type'] != 'pause']
+        if op['op'].startswith('receive_') and op.get('timeout') is None and self.phase == ACCEPTED and not rest:
             self.hit(op['op'] + '.blocks-on-silent-client')
             return
         self.bad('operation-never-completed', op=op, phase=self.phase, rx=self.rx, n_client=len(self.client))
